@@ -12,6 +12,7 @@ pub mod c11;
 pub mod c12;
 pub mod c13;
 pub mod c14;
+pub mod c16;
 pub mod c18;
 pub mod c19;
 pub mod conc;
@@ -35,6 +36,7 @@ pub fn dispatch(a: &Args) -> i32 {
         "C12" => c12::run(a),
         "C13" => c13::run(a),
         "C14" => c14::run(a),
+        "C16" => c16::run(a),
         "C18" => c18::run(a),
         "C19" => c19::run(a),
         "scenarios" => {
@@ -78,6 +80,13 @@ fn replay(a: &Args, path: &str) -> i32 {
                     0
                 }
             }
+        }
+        Some("c16") => {
+            let code = c16::replay(&j);
+            if code == 1 {
+                println!("VIOLATION property={} replay={}", a.prop, path);
+            }
+            code
         }
         Some("c19") => {
             let code = c19::replay(&j);
